@@ -1115,6 +1115,129 @@ def run(ctx, anchors=None):
                      "(a truncated push), so the next script is decoded from foreign memory" % ((f.name,) + bad15 if bad15 else (f.name, "", "")))
     ctx.floor("R15.15", n1515, 1, "loops decoding one script per iteration")
 
+    # ---- R15.7d assert-backed size RELATIONS: `assert(P.size() == Q.f.size())` over two parameters (P possibly moved into a member
+    # first). A caller that hands over a vector it built with exactly k unconditional appends must have established that the
+    # other container has k elements (a guard on its size that dominates the call).
+    rel = {}
+    for f in fb.funcs.values():
+        for n in f.nodes():
+            if n["k"] == "call" and n.get("n") == "__assert_fail":
+                par = f.parent(n)
+                while par is not None and par.get("k") != "cond":
+                    par = f.parent(par)
+                if par is None:
+                    continue
+                c = par["cond"]
+                while c is not None and c.get("k") in ("cast", "paren"):
+                    c = c["e"]
+                if c is None or c.get("k") != "bin" or c["op"] != "==":
+                    continue
+                sides = []
+                for sd in (c["lhs"], c["rhs"]):
+                    while sd is not None and sd.get("k") in ("cast", "paren"):
+                        sd = sd["e"]
+                    if sd is not None and sd.get("k") == "mcall" and sd.get("n") == "size" and sd.get("obj") is not None:
+                        sides.append(sd["obj"])
+                if len(sides) != 2:
+                    continue
+                # which parameters do the two containers come from
+                moved = {}
+                for m in f.nodes():
+                    if m["k"] in ("assign", "opcall") and (m.get("op") in (None, "=")):
+                        lhs = m["lhs"] if m["k"] == "assign" else (m["args"][0] if len(m.get("args", [])) == 2 else None)
+                        rhs = m["rhs"] if m["k"] == "assign" else (m["args"][1] if len(m.get("args", [])) == 2 else None)
+                        if lhs is not None and rhs is not None:
+                            for x in walk(rhs):
+                                if x["k"] == "ref" and x.get("dk") == "parm":
+                                    moved[astq.estr(lhs)] = x["d"]
+                pidx = []
+                for sd in sides:
+                    root = None
+                    for x in walk(sd):
+                        if x["k"] == "ref" and x.get("dk") == "parm":
+                            root = x["d"]
+                    if root is None:
+                        root = moved.get(astq.estr(sd))
+                    pidx.append(([i for i, p_ in enumerate(f.params) if p_["d"] == root] or [None])[0])
+                if None not in pidx and pidx[0] != pidx[1]:
+                    other_path = astq.estr(sides[1] if pidx[0] < pidx[1] else sides[0])
+                    rel[f.id] = (min(pidx), max(pidx), f, astq.estr(c))
+    nrel = 0
+    for f in fb.funcs.values():
+        if not auth(f):
+            continue
+        cfg_ = None
+        for n in f.nodes():
+            if not (astq.is_call(n) and n.get("cid") in rel):
+                continue
+            ia, ib, g, ctext = rel[n["cid"]]
+            obj, args = astq.call_args(n)
+            if max(ia, ib) >= len(args):
+                continue
+            # which argument is a locally built vector
+            built = None
+            for i_ in (ia, ib):
+                a_ = args[i_]
+                for x in walk(a_):
+                    if x["k"] == "ref" and x.get("dk") == "local":
+                        built = (i_, x)
+            if built is None:
+                continue
+            vec = built[1]
+            other = args[ib if built[0] == ia else ia]
+            cfg_ = cfg_ or f.cfg()
+            apps = [m for m in f.nodes() if m["k"] == "mcall" and m.get("n") in ("emplace_back", "push_back") and m.get("obj") is not None and m["obj"].get("k") == "ref" and m["obj"].get("d") == vec.get("d")]
+            in_loop = any(a.get("k") in ("for", "while", "do", "forrange") for m in apps for a in f.ancestors(m))
+            if in_loop or not apps:
+                continue
+            k_ = len([m for m in apps if cfg_.dominates(m, n)])
+            nrel += 1
+            ctx.site()
+            otxt = astq.estr(other).lstrip("*").replace("(", "").replace(")", "").replace(".get", "")
+            guards = [(cn, t) for (cn, t) in S.ast_guards(f, n)]
+            okg = False
+            for (cn, t) in guards:
+                for x in walk(cn):
+                    if x["k"] == "bin" and x["op"] in ("==", "!=") and (astq.const_value(x["lhs"]) == k_ or astq.const_value(x["rhs"]) == k_):
+                        sz = x["rhs"] if astq.const_value(x["lhs"]) == k_ else x["lhs"]
+                        if "size()" in astq.estr(sz) and "vin" in astq.estr(sz) and ((x["op"] == "==") == bool(t)):
+                            okg = True
+            # or a rejecting test earlier in the function
+            for m in f.nodes():
+                if m["k"] == "if" and cfg_.dominates(m["cond"], n):
+                    for x in walk(m["cond"]):
+                        if x["k"] == "bin" and x["op"] == "!=" and (astq.const_value(x["lhs"]) == k_ or astq.const_value(x["rhs"]) == k_) and "size()" in astq.estr(x) and "vin" in astq.estr(x) and S.terminates(m["then"]):
+                            okg = True
+            ctx.inst(okg, "R15.7", "size-relation=%s@%s" % (g.name.split("::")[-1], f.name), f.loc(n),
+                     "%s asserts %s; the caller built a vector of %d element(s) and established that the transaction has as many inputs" % (g.name, ctext, k_),
+                     "%s asserts %s, but %s hands it a vector of %d element(s) without having established that the transaction has %d input(s): a transaction with more inputs aborts the process on the assertion" % (g.name, ctext, f.name, k_, k_))
+    if rel and not nrel:
+        raise AnalysisBroken("R15.7d: functions with a size-relation precondition exist but no authored call site was recognised")
+
+    # ---- R15.16 the session set-up functions report failure through their boolean result (after printing a diagnostic); a caller
+    # that drops it carries on with a half-configured instance (tap then ran into the sighash assertions)
+    ctx.rule("R15.16", "the boolean result of Instance's parse / configure / set-up functions is used at every call site")
+    SETUP = ("Instance::parse_transaction", "Instance::parse_input_transaction", "Instance::configure_tx_txin", "Instance::setup_environment",
+             "Instance::parse_script", "Instance::parse_pretend_valid_expr")
+    setup_fns = {f_.id: f_ for f_ in fb.funcs.values() if f_.name in SETUP and f_.d.get("ret") == "bool" and f_.body is not None}
+    n16 = 0
+    for f in fb.funcs.values():
+        if not auth(f):
+            continue
+        for n in f.nodes():
+            if astq.is_call(n) and n.get("cid") in setup_fns:
+                n16 += 1
+                par = f.parent(n)
+                while par is not None and par.get("k") in ("cast", "paren", "opaque"):
+                    par = f.parent(par)
+                used = par is not None and par.get("k") not in ("block", "compound", "for", "while", "do", "switch", "case", "default", "try") or \
+                    (par is not None and par.get("k") in ("if", "while", "for", "do") and S.contains(par.get("cond"), n))
+                ctx.site()
+                ctx.inst(used, "R15.16", "status-used:%s@%s" % (setup_fns[n["cid"]].name.split("::")[-1], f.name), f.loc(n),
+                         "%s acts on the result of %s" % (f.name, setup_fns[n["cid"]].name),
+                         "%s calls %s and drops its result: after a refused input it continues with a half-configured instance (assertions of the signature-hash code abort the process)" % (f.name, setup_fns[n["cid"]].name))
+    ctx.floor("R15.16", n16, 6, "call sites of the set-up functions")
+
     # ---------------------------------------------------------------- R15.9
     ev = fb.fn("Instance::eval", file="instance.cpp")
     opstep = fb.fn("StepScript", file="script/interpreter.cpp")
@@ -1329,6 +1452,8 @@ def callers_establish(fb, prog, ctor, a, K):
 
 
 MUTANTS = [
+    dict(name="tap-ignores-failed-configuration", file="tap.cpp", find="        if (!instance.configure_tx_txin()) abort(", replace="        instance.configure_tx_txin(); if (false) abort(", expect=["R15.16:status-used:configure_tx_txin@main"]),
+    dict(name="sighash-for-any-input-count", file="instance.cpp", find="    if (tx->vin.size() != 1) {\n        fprintf(stderr, \"error: a signature hash can only be computed", replace="    if (false) {\n        fprintf(stderr, \"error: a signature hash can only be computed", expect=["R15.7:size-relation=Init@Instance::calc_sighash"]),
     dict(name="listing-iterator-carried-over", file="functions.cpp", find="        if (siter > 0) {\n            if (headers[siter] != \"\") {", replace="        if (begun) {\n            if (headers[siter] != \"\") {", expect=["R15.15:iterator-of-the-same-script@svprintscripts"]),
     dict(name="subscript-beyond-accepted-length", file="value.h", find="        if (data.size() != 25) {", replace="        if (data.size() != 25 && data.size() != 23) {", expect=["R15.14:subscript-within-decided-size@Value::do_spk_to_addr"]),
     dict(name="nesting-limit-removed", file="value.h", find="                    if (depth > MAX_BRACKET_DEPTH) {\n                        fprintf(stderr, \"parse error, [brackets nested more than %zu deep\\n\", MAX_BRACKET_DEPTH);\n                        exit(1);\n                    }\n", replace="", expect=["R15.13:cycle=Value::Value+Value::parse_args:nesting-limit"]),
